@@ -10,7 +10,7 @@ from concurrent.futures import ThreadPoolExecutor
 import argparse, tempfile
 env=dict(os.environ, GOFLAGS='-mod=mod', GOPROXY='off', GOSUMDB='off', GOTOOLCHAIN='local', GOWORK='off')
 VERIF=os.path.dirname(os.path.dirname(os.path.abspath(__file__)))
-ap=argparse.ArgumentParser(); ap.add_argument('-j',type=int,default=14); ap.add_argument('--stage',default='all'); ap.add_argument('--out',default=os.path.join(VERIF,'mutation','results.json')); ap.add_argument('--limit',type=int,default=0); ap.add_argument('--ops',default='A',help='A: the operators of the first campaigns; B: second operator set (int-1, +/-, </> swap, rune and string literals, continue/break, base<->url, slice bounds)')
+ap=argparse.ArgumentParser(); ap.add_argument('-j',type=int,default=14); ap.add_argument('--stage',default='all'); ap.add_argument('--out',default=os.path.join(VERIF,'mutation','results.json')); ap.add_argument('--limit',type=int,default=0); ap.add_argument('--ops',default='A',help='A: the operators of the first campaigns; B: second operator set (int-1, +/-, </> swap, rune and string literals, continue/break, base<->url, slice bounds); C: whole if-blocks and else-branches deleted')
 args=ap.parse_args()
 files=[f for d in ('url','canonicalizer','errors') for f in sorted(glob.glob(f'/repo/{d}/*.go')) if not f.endswith('_test.go')]
 muts=[]
@@ -35,7 +35,9 @@ def strip_strings(line):
     return ''.join(res)
 OPS=[('==','!='),('!=','=='),('<=','<'),('>=','>'),('&&','||'),('||','&&')]
 SETB=args.ops=='B'
-if SETB: OPS=[]
+SETC=args.ops=='C'
+if SETB or SETC: OPS=[]
+spans={}
 W='/tmp/wu-mut'+args.ops
 for f in files:
     lines=open(f).read().split('\n')
@@ -52,6 +54,24 @@ for f in files:
             continue
         if not s or s.startswith('//') or s.startswith('package') or s.startswith('import'): continue
         masked=strip_strings(line)
+        if SETC:
+            m=re.match(r'^(\t+)if .*\{$',line)
+            if m and not re.match(r'^\t+if .*:=',line):
+                ind=m.group(1)
+                for e in range(ln+1,min(ln+60,len(lines))):
+                    if lines[e]==ind+'}':
+                        spans[len(muts)]=e; muts.append((f,ln,'delete-if-block',ind+'_ = 0')); break
+                    if lines[e].startswith(ind+'} else'):
+                        break
+                    if not lines[e].startswith(ind) and lines[e].strip(): break
+            m=re.match(r'^(\t+)\} else \{$',line)
+            if m:
+                ind=m.group(1)
+                for e in range(ln+1,min(ln+60,len(lines))):
+                    if lines[e]==ind+'}':
+                        spans[len(muts)]=e-1; muts.append((f,ln,'delete-else',ind+'} else {')); break
+                    if not lines[e].startswith(ind) and lines[e].strip(): break
+            continue
         def add(newline,kind):
             muts.append((f,ln,kind,newline))
         for a,b in OPS:
@@ -118,6 +138,7 @@ def copy(k):
     shutil.copytree('/repo', d, ignore=shutil.ignore_patterns('.git'))
     rel=os.path.relpath(f,'/repo'); p=os.path.join(d,rel)
     lines=open(p).read().split('\n'); old=lines[ln]; lines[ln]=newline
+    if k in spans: del lines[ln+1:spans[k]+1]
     open(p,'w').write('\n'.join(lines))
     return d,rel,old
 
